@@ -565,7 +565,26 @@ def raw_roles(path):
                 role[k] = "RCoord"
             else:
                 role[k] = "RData"
-    return {k: {"shape": out[k]["shape"], "role": role[k], "dtype": out[k]["dtype"]} for k in out}
+    def attr_desc(a, name):
+        if name not in a:
+            return None
+        x = np.asarray(a[name])
+        if x.dtype.kind not in "iuf" or x.ndim > 1 or x.size < 1:
+            return "other"
+        x = x.ravel()[0]
+        return [x.dtype.str[1:], float(x)]
+
+    res = {}
+    for k in out:
+        a = out[k]["attrs"]
+        try:
+            tag = np.dtype(out[k]["dtype"]).str[1:]
+        except TypeError:
+            tag = None
+        res[k] = {"shape": out[k]["shape"], "role": role[k], "dtype": out[k]["dtype"], "tag": tag,
+                  "pack": {"unsigned": str(a.get("_Unsigned")) in ("true", "True"),
+                           "scale": attr_desc(a, "scale_factor"), "offset": attr_desc(a, "add_offset")}}
+    return res
 
 
 def raw_values(path):
@@ -624,6 +643,15 @@ def do_read(p):
                     for label, ncvar, d in data_objects(f):
                         where.append([f.nc_get_variable(None), label, ncvar, where_is(d), list(d.shape)])
                 e["where"] = where
+                # Data.dtype while nothing has been fetched yet
+                before = []
+                take_log()
+                for f in fields:
+                    for label, ncvar, d in data_objects(f):
+                        dt = d.dtype
+                        nf = sum(1 for g in take_log() if g["e"] == "get")
+                        before.append([f.nc_get_variable(None), label, ncvar, str(dt), dt.kind, nf])
+                e["dtype_before"] = before
                 reads[name] = fields
                 per[name] = e
             # --- data access: fingerprints (this realises everything), files closed afterwards
@@ -648,6 +676,29 @@ def do_read(p):
                             if got[1:] != exp[1:] or (got[0] != exp[0] and not c["spec"].get("packed")):
                                 bad.append([ncvar, got, exp])
                 per[name]["raw_mismatch"] = bad
+                take_log()
+            # --- bringing data into memory: data types and equality, for every construct
+            for name, fields in reads.items():
+                rows_ = []
+                ceq = []
+                for f in fields:
+                    try:
+                        g = realise_field(f.copy())
+                        for (label, ncvar, d), (_, _, d2) in zip(data_objects(f), data_objects(g)):
+                            a = d.array
+                            rows_.append([f.nc_get_variable(None), label, ncvar, str(a.dtype), a.dtype.kind, str(d2.dtype),
+                                          where_is(d2).split(":")[0], bool(d.equals(d2)), bool(d2.equals(d)),
+                                          fp_array(a) == fp_array(d2.array)])
+                        ceq.append([f.nc_get_variable(None), "field", bool(f.equals(g)), bool(g.equals(f))])
+                        for key, c in sorted(f.constructs.filter_by_data(todict=True).items()):
+                            c2 = g.constructs[key]
+                            ceq.append([f.nc_get_variable(None), c.construct_type + ":" + str(c.nc_get_variable(None)),
+                                        bool(c.equals(c2)), bool(c2.equals(c))])
+                    except Exception as ex:
+                        ceq.append([f.nc_get_variable(None), "raised", type(ex).__name__ + ": " + str(ex)[:150], False])
+                per[name]["dtype_after"] = rows_
+                per[name]["memory_equals"] = ceq
+                per[name]["open_after_memory"] = open_nc(scratch)
                 take_log()
             # --- equality across backends, both ways
             eq = {}
